@@ -14,6 +14,8 @@
 #include <gudhi/Fields/Zp_field_operators.h>
 
 #include <functional>
+#include <sys/mman.h>
+#include <sys/wait.h>
 #include <memory>
 #include <unordered_set>
 
@@ -23,6 +25,14 @@ using Gudhi::persistence_matrix::Column_types;
 using CI = Gudhi::persistence_matrix::Column_indexation_types;
 using Gudhi::persistence_matrix::Matrix;
 using ZpOps = Gudhi::persistence_fields::Zp_field_operators<>;
+
+// name of the API call being executed (read by the crash / exception reporting of the checks)
+inline const char* g_phase = "";
+inline void (*g_phase_sink)(const char*) = nullptr;
+inline void phase(const char* p) {
+  g_phase = p;
+  if (g_phase_sink) g_phase_sink(p);
+}
 
 constexpr int F_BOUNDARY = 0;  // boundary type, only R stored (reduced when the barcode is asked)
 constexpr int F_RU = 1;        // boundary type, R and U stored
@@ -249,6 +259,27 @@ inline std::vector<std::vector<int>> enumerate_histories(const Universe& U, cons
   return out;
 }
 
+struct HistInfo {
+  int inserts = 0, removes = 0;
+  bool empty_remove = false;         // some remove_last is applied to an empty matrix
+  bool insert_after_remove = false;  // some insertion follows a removal
+};
+inline HistInfo hist_info(const std::vector<int>& ops) {
+  HistInfo h;
+  int n = 0;
+  for (int c : ops) {
+    if (c == OP_REMOVE) {
+      ++h.removes;
+      if (n == 0) h.empty_remove = true; else --n;
+    } else {
+      ++h.inserts;
+      ++n;
+      if (h.removes) h.insert_after_remove = true;
+    }
+  }
+  return h;
+}
+
 inline std::string ops_text(const Universe& U, const std::vector<int>& ops) {
   std::ostringstream o;
   for (int c : ops) {
@@ -404,9 +435,16 @@ struct Exec {
     mod.U = &U;
     mod.p = p;
     mod.idmode = idmode;
+    phase("constructor");
     if (ctor == 0) {
       m.reset(new M());
-      if constexpr (!O::is_z2) m->set_characteristic((unsigned)p);
+      if constexpr (!O::is_z2) {
+        // documented use (default constructor, then set_characteristic); the call prints a spurious "already
+        // initialised" warning on std::cerr for every matrix, which is muted here to keep the logs small
+        std::cerr.setstate(std::ios_base::failbit);
+        m->set_characteristic((unsigned)p);
+        std::cerr.clear();
+      }
     } else {
       if constexpr (O::is_z2) m.reset(new M(5u));
       else m.reset(new M(5u, (unsigned)p));
@@ -420,6 +458,7 @@ struct Exec {
   }
 
   void insert(int c) {
+    phase("insert_boundary");
     auto bp = mod.boundary_positions(c);
     unsigned id = mod.next_id();
     int dim = mod.U->cells[c].dim;
@@ -446,6 +485,7 @@ struct Exec {
   }
   void remove_last() {
     if constexpr (CAN_REMOVE) {
+      phase("remove_last");
       m->remove_last();
       mod.remove_last();
       ++calls;
@@ -495,6 +535,7 @@ struct Exec {
 
   std::vector<ref::Pair> barcode() {
     std::vector<ref::Pair> r;
+    phase("get_current_barcode");
     const auto& bc = m->get_current_barcode();
     ++calls;
     for (const auto& bar : bc) {
@@ -531,6 +572,101 @@ inline std::vector<int> parse_ops(const std::string& s) {
     else cur += ch;
   }
   return r;
+}
+
+
+// -------------------------------------------------------------------------------------------------------------------
+// isolation: a block of cases runs in a forked child; counters live in shared memory so that they survive a death of
+// the child (sanitizer report, signal, watchdog).  A death is reported by the parent as a mismatch whose class names
+// the flavour, the indexation and the API call that was executing, and the enumeration resumes after that case.
+// -------------------------------------------------------------------------------------------------------------------
+struct Shared {
+  volatile long long cur;
+  volatile int sig;
+  volatile int incomplete;
+  char phase[48];
+  long long c[64];
+  struct { unsigned long long h; long long n; } cls[256];
+};
+inline Shared* g_sh = nullptr;
+
+inline void shared_init() {
+  void* mem = mmap(nullptr, sizeof(Shared), PROT_READ | PROT_WRITE, MAP_SHARED | MAP_ANONYMOUS, -1, 0);
+  if (mem == MAP_FAILED) { perror("mmap"); exit(2); }
+  g_sh = (Shared*)mem;
+  memset((void*)g_sh, 0, sizeof(Shared));
+  g_phase_sink = [](const char* p) {
+    size_t i = 0;
+    for (; p[i] && i + 1 < sizeof(g_sh->phase); ++i) g_sh->phase[i] = p[i];
+    g_sh->phase[i] = 0;
+  };
+}
+inline long long& cnt(int i) { return g_sh->c[i]; }
+
+// at most `cap` MISMATCH lines per class over the whole process tree; every occurrence is counted
+inline bool class_should_print(const std::string& cls, int cap = 5) {
+  unsigned long long h = 1469598103934665603ull;
+  for (unsigned char ch : cls) { h ^= ch; h *= 1099511628211ull; }
+  if (!h) h = 1;
+  for (size_t k = 0; k < 256; ++k) {
+    auto& e = g_sh->cls[(h + k) % 256];
+    if (e.h == 0) e.h = h;
+    if (e.h == h) return ++e.n <= cap;
+  }
+  return true;
+}
+
+inline void child_signal(int s) {
+  g_sh->sig = s;
+  _exit(77);
+}
+
+// runs run(k) for k in [0,n) inside forked children; describe(k) gives the case string; crash_cls(phase, kind) the class
+// After max_deaths deaths the rest of the block is abandoned (returned count, to be reported as incomplete): a
+// death costs a fork and a sanitizer report, and configurations hit by a crash defect die on most histories.
+template <class Run, class Describe, class CrashCls>
+size_t run_isolated(size_t n, Run&& run, Describe&& describe, CrashCls&& crash_cls, int idx_traces, int max_deaths = 6) {
+  size_t next = 0;
+  int deaths = 0;
+  while (next < n) {
+    if (deaths >= max_deaths) return n - next;
+    g_sh->cur = -1;
+    g_sh->sig = 0;
+    fflush(stdout);
+    fflush(stderr);
+    pid_t pid = fork();
+    if (pid < 0) { perror("fork"); exit(2); }
+    if (pid == 0) {
+      vf::g_probe_child = true;  // the parent reports
+      for (int s : {SIGSEGV, SIGABRT, SIGFPE, SIGBUS, SIGILL, SIGALRM}) signal(s, child_signal);
+      for (size_t k = next; k < n; ++k) {
+        g_sh->cur = (long long)k;
+        if (!run(k)) { g_sh->incomplete = 1; break; }
+      }
+      fflush(stdout);
+      _exit(0);
+    }
+    int st = 0;
+    waitpid(pid, &st, 0);
+    if (WIFEXITED(st) && WEXITSTATUS(st) == 0) return 0;
+    ++deaths;
+    long long k = g_sh->cur;
+    if (k < 0 || (size_t)k >= n) { fprintf(stderr, "engine: child died outside a case\n"); exit(2); }
+    int sig = g_sh->sig;
+    const char* kind = sig == SIGALRM ? "timeout" : sig == SIGSEGV ? "SIGSEGV" : sig == SIGABRT ? "abort" : sig == SIGFPE ? "SIGFPE"
+                       : sig == SIGBUS ? "SIGBUS" : sig == SIGILL ? "SIGILL" : "exit";
+    std::string phase_now((const char*)g_sh->phase);
+    std::string cls = crash_cls(phase_now, std::string(kind));
+    vf::set_case(describe((size_t)k));
+    cnt(idx_traces)++;
+    if (class_should_print(cls))
+      vf::mismatch(cls, "the process died (" + std::string(kind) + ": sanitizer report, signal or watchdog) inside " + phase_now +
+                            " while executing this history; the sanitizer report is in the stderr log");
+    else vf::stats().mismatches++;
+    vf::end_case();
+    next = (size_t)k + 1;
+  }
+  return 0;
 }
 
 }  // namespace pmc
